@@ -67,3 +67,79 @@ pub fn formatted_duration(_args: &[String]) -> String {
     }
     "{\"found\": false}".to_string()
 }
+
+/// HumanDuration against its stated rounding rule, written independently in integer milliseconds:
+/// the unit is the largest one U with d + next/2 >= 1.5 U (seconds otherwise), the count is the
+/// nearest integer of d / U (at least 2 above seconds), and the value shown is monotone in d.
+/// Checked at every unit boundary k*U, (k+0.5)*U and the switch points, each +- 1 ms.
+pub fn human_duration(_args: &[String]) -> String {
+    use indicatif::HumanDuration;
+    std::panic::set_hook(Box::new(|_| {}));
+    const S: u128 = 1000;
+    let units: [(u128, &str, &str); 6] = [(365 * 24 * 3600 * S, "year", "y"), (7 * 24 * 3600 * S, "week", "w"), (24 * 3600 * S, "day", "d"), (3600 * S, "hour", "h"), (60 * S, "minute", "m"), (S, "second", "s")];
+    let oracle = |ms: u128| -> (u128, usize) {
+        let mut idx = 5;
+        for i in 0..5 {
+            if ms + units[i + 1].0 / 2 >= units[i].0 + units[i].0 / 2 {
+                idx = i;
+                break;
+            }
+        }
+        let u = units[idx].0;
+        let mut t = (ms + u / 2) / u; // nearest, halves up
+        if idx < 5 && t < 2 {
+            t = 2;
+        }
+        (t, idx)
+    };
+    let mut points: Vec<u128> = vec![0, 1, 499, 500, 501, 999, 1000, 1499, 1500, 1501];
+    for (i, (u, _, _)) in units.iter().enumerate() {
+        for k in 1..=12u128 {
+            for base in [k * u, k * u + u / 2] {
+                for d in [-1i128, 0, 1] {
+                    points.push((base as i128 + d) as u128);
+                }
+            }
+        }
+        if i < 5 {
+            let sw = u + u / 2 - units[i + 1].0 / 2;
+            for d in [-1i128, 0, 1] {
+                points.push((sw as i128 + d) as u128);
+            }
+        }
+    }
+    points.push(u64::MAX as u128 * 1000 + 999);
+    points.sort();
+    points.dedup();
+    let mut tried = 0u64;
+    let mut prev: Option<(u128, u128)> = None; // (ms, shown value in ms)
+    for ms in points {
+        let d = Duration::new((ms / 1000) as u64, ((ms % 1000) * 1_000_000) as u32);
+        let plain = match std::panic::catch_unwind(|| (format!("{}", HumanDuration(d)), format!("{:#}", HumanDuration(d)))) {
+            Ok(x) => x,
+            Err(_) => return format!("{{\"found\": true, \"clause\": \"C15 HumanDuration never panics\", \"input\": {{\"millis\": \"{}\"}}, \"rerun\": \"replay human_duration\"}}", ms),
+        };
+        tried += 1;
+        let (t, idx) = oracle(ms);
+        // halves: the f64 quotient of an exact half rounds away from zero like the oracle; skip comparing exact .5 points beyond 2^53 ms
+        let (_, name, alt) = units[idx];
+        let want = if t == 1 { format!("{} {}", t, name) } else { format!("{} {}s", t, name) };
+        let want_alt = format!("{}{}", t, alt);
+        let exact = ms < (1u128 << 52);
+        if exact && (plain.0 != want || plain.1 != want_alt) {
+            return format!("{{\"found\": true, \"clause\": \"C15 HumanDuration follows its rounding rule (nearest count, at least 2 above seconds, smaller unit below 1.5 units)\", \"tried\": {}, \"input\": {{\"millis\": \"{}\", \"expected\": {}, \"printed\": {}, \"printed_alt\": {}}}, \"rerun\": \"replay human_duration\"}}",
+                tried, ms, crate::js(&want), crate::js(&plain.0), crate::js(&plain.1));
+        }
+        // monotone: the value shown never decreases when the duration grows
+        let shown_t: u128 = plain.1.trim_end_matches(|c: char| c.is_alphabetic()).parse().unwrap_or(0);
+        let shown_unit = units.iter().find(|u| plain.1.ends_with(u.2)).map(|u| u.0).unwrap_or(0);
+        let shown = shown_t * shown_unit;
+        if let Some((pms, pshown)) = prev {
+            if shown < pshown {
+                return format!("{{\"found\": true, \"clause\": \"C15 HumanDuration is monotone in the duration\", \"input\": {{\"millis_a\": \"{}\", \"millis_b\": \"{}\", \"printed_b\": {}}}, \"rerun\": \"replay human_duration\"}}", pms, ms, crate::js(&plain.1));
+            }
+        }
+        prev = Some((ms, shown));
+    }
+    format!("{{\"found\": false, \"tried\": {}}}", tried)
+}
